@@ -108,8 +108,20 @@ def check_polarity(ctx, ev):
     return eval_call
 
 
+def rules_var(prog, tool):
+    for s in walk_no_nested(tool.node):
+        if isinstance(s, ast.Assign) and isinstance(s.value, ast.Call) and \
+                prog.resolve(tool.module, s.value.func) in (
+                    POLICY + '.Rules.load', POLICY + '.Rules.from_dict',
+                    POLICY + '.Rules') and isinstance(s.targets[0],
+                                                      ast.Name):
+            return s.targets[0].id
+    raise AnalysisError('the checker does not load a rule set')
+
+
 def check_call(ctx, tool, ev, eval_call):
     prog = ctx.prog
+    RV = rules_var(prog, tool)
     if eval_call is None:
         raise AnalysisError('evaluation call not found')
     # roles inside the evaluator
@@ -171,7 +183,7 @@ def check_call(ctx, tool, ev, eval_call):
         okpair = False
         if nm is not None and rl is not None:
             for v in assigns.get(U(rl), []):
-                if isinstance(v, ast.Subscript) and U(v.value) == 'rules':
+                if isinstance(v, ast.Subscript) and U(v.value) == RV:
                     src = U(v.slice)
                     if src == U(nm) or any(U(x) == src for x in assigns.get(
                             U(nm), [])):
@@ -181,7 +193,7 @@ def check_call(ctx, tool, ev, eval_call):
                 if isinstance(anc, ast.For) and isinstance(
                         anc.target, ast.Tuple) and [U(x) for x in
                                                     anc.target.elts] == [
-                        U(nm), U(rl)] and 'rules.items()' in U(anc.iter):
+                        U(nm), U(rl)] and RV + '.items()' in U(anc.iter):
                     okpair = True
                 anc = pm.get(anc)
         if not okpair:
@@ -220,8 +232,9 @@ def check_iter(ctx, tool, ev):
     t = Table(prog, tool)
     W = ctx.where(tool.module, tool.node)
     req = tool.params[2] if len(tool.params) > 2 else 'apply_rule'
+    RV = rules_var(prog, tool)
     loops = [n for n in walk_no_nested(tool.node) if isinstance(n, ast.For)
-             and 'rules.items()' in U(n.iter)]
+             and RV + '.items()' in U(n.iter)]
     ok_sorted = ok_colon = False
     for lp in loops:
         it = lp.iter
@@ -341,7 +354,7 @@ def check_lookup(ctx, tool):
     n_sites = 0
     for n in walk_no_nested(tool.node):
         if isinstance(n, ast.Subscript) and isinstance(n.ctx, ast.Load) \
-                and U(n.value) == 'rules':
+                and U(n.value) == rules_var(prog, tool):
             n_sites += 1
             caught = set()
             hs = []
